@@ -381,9 +381,10 @@ RelocAlphabet ==       \* C09: even-sized statements; absolute (#a, @#b, .word a
     I1("movx", A), I1("movi", Bin("-", Dot, A)), I1("movr", Bin("+", Dot, Num(4))),
     W(<<A>>), W(<<B, Bin("-", B, A)>>), W(<<Dot, Bin("+", Bin("-", B, A), Bin("-", B, A))>>), Blkw(Num(2)),
     Lab("a"), Lab("b"), Const("c", Bin("+", A, Num(2))), W(<<Sym("c")>>), Rep(2, << I1("movr", A), W(<<Dot>>) >>), Inc(1), Inc(2),
-    LabX("g"), I1("movr", Sym("x")), I1("br", Sym("x")) }
+    LabX("g"), I1("movr", Sym("x")), I1("br", Sym("x")), Inc(3) }
 RelocIncFiles == << [name |-> "i1", body |-> << LabX("x"), I1("movr", Sym("g")), W(<< Sym("x"), Bin("-", Sym("g"), Sym("x")) >>), I1("mova", Sym("g")) >>],
-                    [name |-> "i2", body |-> << I0("nop"), Inc(1), I1("movr", Sym("x")), I1("movi", Sym("x")) >>] >>
+                    [name |-> "i2", body |-> << I0("nop"), Inc(1), I1("movr", Sym("x")), I1("movi", Sym("x")) >>],
+                    [name |-> "i3", body |-> << LabX("y"), I1("movr", Sym("x")), I1("br", Sym("x")), W(<< Bin("-", Sym("y"), Sym("x")) >>) >>] >>
 
 OrderAlphabet ==       \* C03: definition chains / diamonds / uses in every operand and directive position
   { Const("a", Bin("+", B, Num(1))), Const("b", Bin("*", Sym("c"), Num(2))), Const("c", Num(5)), Const("c", Bin("-", Sym("l"), Sym("m"))),
@@ -395,6 +396,12 @@ OrderAlphabet ==       \* C03: definition chains / diamonds / uses in every oper
     Const("p", Bin("+", Sym("l"), Num(2))), Const("q", Bin("+", Sym("l"), Num(102))), W(<< Bin("-", Sym("q"), Sym("p")) >>),
     I1("movi", Bin("-", Bin("+", Sym("q"), Sym("q")), Bin("+", Sym("p"), Sym("p")))), W(<< Bin("*", Bin("+", A, Num(1)), B) >>),
     Blkb(Bin("*", Bin("+", Sym("c"), Num(1)), Sym("d"))) }
+
+OrderCoreAlphabet ==   \* C03: the core of OrderAlphabet, small enough for all programs of 4 statements
+  { Const("a", Bin("+", B, Num(1))), Const("b", Bin("*", Sym("c"), Num(2))), Const("c", Num(5)),
+    Const("p", Bin("+", Sym("l"), Num(2))), Const("q", Bin("+", Sym("l"), Num(102))), Lab("l"),
+    W(<< Bin("-", Sym("q"), Sym("p")) >>), W(<< A >>), W(<< Bin("*", Bin("+", A, Num(1)), B) >>), Blkb(Sym("c")), I1("movi", A), I0("nop"),
+    I1("movx", Bin("-", Sym("q"), Sym("p"))) }
 
 ScopeAlphabet ==       \* C11: reused local and private names, all export forms, all orders
   { Lab("a"), LabX("a"), Lab("b"), Lab("1"), Lab("2"), Const("a", Num(7)), ConstX("a", Num(11)), Const("b", Num(13)),
